@@ -24,6 +24,19 @@ fn keypair() -> Ed25519KeyPair {
     Ed25519KeyPair::from_der(&doc, "1".into()).unwrap()
 }
 
+/// op 3 / 4: Base64<Standard> / Base64<UrlSafe>::parse of an arbitrary string (case = ( op 0 string )).
+pub fn run_b64(url: bool, text: &[u8]) -> Sx {
+    use ruma_common::serde::{base64::{Standard, UrlSafe}, Base64};
+    let text = text.to_vec();
+    guarded(move || {
+        let r = if url { Base64::<UrlSafe>::parse(&text).map(|b| b.into_inner()) } else { Base64::<Standard>::parse(&text).map(|b| b.into_inner()) };
+        match r {
+            Ok(b) => Sx::ok(Sx::S(b)),
+            Err(_) => Sx::err(0),
+        }
+    })
+}
+
 pub fn run_case(op: u32, version: u32, obj: &CanonicalJsonObject) -> Sx {
     let rules = RoomVersionId::try_from(version.to_string().as_str()).unwrap().rules().unwrap();
     let obj = obj.clone();
@@ -60,6 +73,10 @@ fn case_sx(op: u32, version: u32, obj: &CanonicalJsonObject) -> Sx {
 
 pub fn replay(case: &Sx) -> Option<Sx> {
     let l = case.as_list()?;
+    let op = l.first()?.as_int()?;
+    if op == 3 || op == 4 {
+        return Some(run_b64(op == 4, l.get(2)?.as_bytes()?));
+    }
     let obj = crate::sx::sx_to_obj(l.get(2)?)?;
     Some(run_case(l.first()?.as_int()? as u32, l.get(1)?.as_int()? as u32, &obj))
 }
@@ -136,6 +153,37 @@ pub fn run(tier: &str, seed: u64, em: &mut Emitter) {
         };
         ev.insert("room_id".into(), CanonicalJsonValue::String("r".repeat(sz - base)));
         emit(em, "boundary-size-ref", 1, 9, &ev);
+    }
+    // base64 decoding as ruma configures it (indifferent padding, trailing bits allowed): exhaustive
+    // over short strings of a small alphabet, both alphabets
+    {
+        const ALPHA: &[u8] = b"AQZaz09+/-_= !";
+        let max_len = if tier == "thorough" { 5 } else { 4 };
+        let mut idx: Vec<usize> = vec![];
+        loop {
+            let t: Vec<u8> = idx.iter().map(|&k| ALPHA[k]).collect();
+            for (op, url) in [(3u32, false), (4u32, true)] {
+                em.emit("base64-exhaustive", Sx::L(vec![Sx::n(op), Sx::n(0u32), Sx::S(t.clone())]), run_b64(url, &t));
+            }
+            let mut i = idx.len();
+            loop {
+                if i == 0 {
+                    idx = vec![0; idx.len() + 1];
+                    break;
+                }
+                i -= 1;
+                if idx[i] + 1 < ALPHA.len() {
+                    idx[i] += 1;
+                    for c in idx.iter_mut().skip(i + 1) {
+                        *c = 0;
+                    }
+                    break;
+                }
+            }
+            if idx.len() > max_len {
+                break;
+            }
+        }
     }
     for _ in 0..n {
         let mut ev = gen_event(&mut r);
